@@ -73,6 +73,8 @@ def program(rng, tier):
     lines.append('ab_chunk [] 8')
     lines.append('ab_compare %s' % rng.choice('BSOADTMG'))
     for kind in ('T', 'M'):
+        lines.append('ab_tagname %s %s' % (kind, rng.choice(['ref', 'other', 'gone', 'none', 'empty'])))
+    for kind in ('T', 'M'):
         for _ in range(2):
             lines.append('ab_tagidx %s %s %s' % (kind, rng.choice(['0', '1', '1', '2', '4294967296', '18446744073709551615']), rng.choice(['0', '1', '1', '2', '18446744073709551615'])))
     return lines
